@@ -157,6 +157,71 @@ func (e *Engine) checkPrivate(ts *TypeSpec, fnIndex map[string]*ssa.Function) {
 		if !ok {
 			continue
 		}
+		if strings.Contains(f, ".") {
+			// a path through embedded struct values: every component must be unexported, so
+			// that Go's visibility rules confine all stores to the declaring package
+			name := fmt.Sprintf("%s/%s.%s/private#%s", e.prop, shortPkg(ts.Pkg), ts.Name, f)
+			ob := &Obligation{Name: name, Func: shortPkg(ts.Pkg) + "." + ts.Name, Kind: "immutable", Desc: "field path " + f + " (and its map contents) is unexported: written only by package " + shortPkg(ts.Pkg)}
+			var path []int
+			var cur types.Type = named
+			okPath := true
+			for _, comp := range strings.Split(f, ".") {
+				cs, isStruct := cur.Underlying().(*types.Struct)
+				found := -1
+				if isStruct {
+					for i := 0; i < cs.NumFields(); i++ {
+						if cs.Field(i).Name() == comp {
+							found = i
+						}
+					}
+				}
+				if found < 0 || cs.Field(found).Exported() {
+					okPath = false
+					break
+				}
+				path = append(path, found)
+				cur = cs.Field(found).Type()
+			}
+			if !okPath {
+				ob.VCs = []*VC{{Goal: False, From: "syntactic"}}
+				ob.Desc += " (contract-target-missing or exported component)"
+			} else {
+				hn, ft := heapKeyStruct(named, path)
+				for _, l := range layout(ft) {
+					stableHeapNames[hn+l.Suffix] = true
+					e.immutableHeap[hn+l.Suffix] = true
+				}
+				if mt, isMap := ft.Underlying().(*types.Map); isMap {
+					if _, ok := mapSorts(mt); ok {
+						mn := mapHeapName(mt)
+						stableHeapNames[mn+"#dom"] = true
+						for _, l := range layout(mt.Elem()) {
+							stableHeapNames[mn+"#val"+l.Suffix] = true
+						}
+						var bad []string
+						for key, fn := range fnIndex {
+							if strings.HasPrefix(key, ts.Pkg+".") && !strings.Contains(strings.TrimPrefix(key, ts.Pkg+"."), "/") {
+								continue
+							}
+							for _, b := range fn.Blocks {
+								for _, in := range b.Instrs {
+									if mu, ok := in.(*ssa.MapUpdate); ok && types.Identical(mu.Map.Type().Underlying(), mt) {
+										bad = append(bad, e.posStr(mu.Pos()))
+									}
+								}
+							}
+						}
+						if len(bad) > 0 {
+							ob.VCs = []*VC{{Goal: False, From: "syntactic"}}
+							ob.Desc += "; maps of this type are updated at " + strings.Join(bad, ", ")
+						}
+					}
+				}
+			}
+			e.obls[name] = ob
+			e.order = append(e.order, name)
+			continue
+		}
 		idx := -1
 		for i := 0; i < st.NumFields(); i++ {
 			if st.Field(i).Name() == f {
